@@ -188,12 +188,12 @@ for arch, fl, fn in [("ppc", "ppc.rs", "ppc_code"), ("sparc", "sparc.rs", "sparc
       functions=[("src/filter/bcj/" + fl, fn)],
       contract="for EVERY buffer length: no index/overflow error, terminates, returns the converted prefix r (multiple of the stride, r+4 > len, 0 if len<4), pos += r, bytes >= r untouched, is_encoder/prev_mask unchanged")
 
-U(id="C01.lzd.ring", props=["C01", "C06", "C04"], backend="verus", verus="lzd.json", harnesses=[], stubs=[],
+U(id="C01.lzd.ring", props=["C01", "C06"], backend="verus", verus="lzd.json", harnesses=[], stubs=[],
   functions=[("src/lz/lz_decoder.rs", "reset"), ("src/lz/lz_decoder.rs", "set_limit"), ("src/lz/lz_decoder.rs", "has_space"),
              ("src/lz/lz_decoder.rs", "get_byte"), ("src/lz/lz_decoder.rs", "put_byte")],
   contract="for EVERY dictionary size 1..2^63-1: representation invariant wf (buf.len = buf_size, start <= pos <= full <= buf_size, limit <= buf_size) is preserved by reset/set_limit/put_byte; no index or overflow error under wf; get_byte(d) = buf[(pos-d-1) mod buf_size]; put_byte stores b at pos, advances pos by one, full = max(full,pos), nothing else changes (whole-buffer postcondition: buf' = buf.update(pos,b)); verified exec witness composes them: put,put then get_byte(0),get_byte(1) return the two bytes")
 
-U(id="C01.lze.pos", props=["C01", "C13"], backend="verus", verus="lze.json", harnesses=[], stubs=[],
+U(id="C01.lze.pos", props=["C01"], backend="verus", verus="lze.json", harnesses=[], stubs=[],
   functions=[("src/lz/lz_encoder.rs", "is_started"), ("src/lz/lz_encoder.rs", "has_enough_data"),
              ("src/lz/lz_encoder.rs", "move_pos"), ("src/lz/lz_encoder.rs", "get_buf_size")],
   contract="for EVERY window size: encoder window invariant wf (-1 <= read_pos <= write_pos <= buf_size = buf.len, read_limit <= write_pos) preserved by move_pos; move_pos advances read_pos by exactly one, returns avail or (0 and pending_size+1) exactly by the flushing/finishing rule, changes no other field (whole-struct frame); has_enough_data/is_started exact; get_buf_size = keep_before + keep_after + min(dict/2+256K, 512M) without overflow under its stated bound")
